@@ -1064,19 +1064,25 @@ where
         if let Some(comments) = &self.comments {
             comments.with_leading(span.lo, |comments| {
                 let pragma = comments.iter().find_map(|comment| {
-                    let trimmed = comment.text.trim();
-                    let rest = trimmed
-                        .strip_prefix('*')
-                        .unwrap_or(trimmed)
-                        .trim()
-                        .strip_prefix("@jsx")?;
-                    // `@jsx` must be followed by whitespace (not `@jsxImportSource`, `@jsxFrag`, ...);
-                    // the pragma is the next word only
-                    if rest.starts_with(char::is_whitespace) {
-                        rest.split_whitespace().next()
-                    } else {
-                        None
-                    }
+                    // the annotation may stand on any line of the comment (multi-line JSDoc)
+                    comment
+                        .text
+                        .split(['\n', '\r', '\u{2028}', '\u{2029}'])
+                        .find_map(|line| {
+                            let trimmed = line.trim();
+                            let rest = trimmed
+                                .strip_prefix('*')
+                                .unwrap_or(trimmed)
+                                .trim()
+                                .strip_prefix("@jsx")?;
+                            // `@jsx` must be followed by whitespace (not `@jsxImportSource`,
+                            // `@jsxFrag`, ...); the pragma is the next word only
+                            if rest.starts_with(char::is_whitespace) {
+                                rest.split_whitespace().next()
+                            } else {
+                                None
+                            }
+                        })
                 });
                 if let Some(pragma) = pragma {
                     self.pragma = Some(pragma.to_string());
